@@ -435,7 +435,42 @@ def f17_err_type(ctx, repo):
                         want_sizes.add(norm(l.node.args[0]))
                 if nm.startswith("sstruct.") and c.args:
                     want_sizes.add("sstruct.calcsize(%s)" % norm(c.args[0]))
-                for nid, st in g.stmt.items():
+                # guard inverted into `if len(v) == N: <use>; return` followed by the raise: same facts, other arm
+                if True:
+                    from ..cfg import implied_conditions
+
+                    facts = implied_conditions(g, c)
+                    for text, pol in facts:
+                        try:
+                            t = ast.parse(text, mode="eval").body
+                        except SyntaxError:
+                            continue
+                        if not (isinstance(t, ast.Compare) and len(t.ops) == 1 and norm(t.left) == "len(%s)" % var):
+                            continue
+                        good_shape = isinstance(t.ops[0], ast.Eq) and pol or isinstance(t.ops[0], ast.Lt) and not pol or isinstance(t.ops[0], ast.GtE) and pol
+                        if not good_shape:
+                            continue
+                        size = norm(t.comparators[0])
+                        size_ok = (is_param and not from_file) or size in want_sizes or _same_const(repo, mod, t.comparators[0], want_sizes)
+                        # the arm that does not reach the unpack must raise the library error
+                        raising = False
+                        for nid, st in g.stmt.items():
+                            if isinstance(st, ast.If) and ("len(%s)" % var) in norm(st.test) and g.dominates(nid, cn):
+                                if _raises_lib_error(st.body) or _raises_lib_error(st.orelse):
+                                    raising = True
+                                else:
+                                    holder = parent(st)
+                                    for fld in ("body", "orelse", "finalbody"):
+                                        blk = getattr(holder, fld, None)
+                                        if isinstance(blk, list) and any(x is st for x in blk):
+                                            k = next(i_ for i_, x in enumerate(blk) if x is st)
+                                            if _raises_lib_error(blk[k + 1 :]):
+                                                raising = True
+                        if size_ok and raising:
+                            ok = True
+                        elif not size_ok:
+                            why = f"length test compares against {size}, but the bytes were read with size {sorted(want_sizes)}"
+                for nid, st in g.stmt.items() if not ok else ():
                     if isinstance(st, ast.If) and _raises_lib_error(st.body) and ("len(%s)" % var) in norm(st.test) and g.dominates(nid, cn):
                         t = st.test
                         # accepted shapes: len(v) != N, len(v) < N  with N the size read (or the size of the format unpacked)
